@@ -44,6 +44,26 @@ def api_fail_cfgs(n, Ws, kinds=("p", "d", "l"), max_errors=(0, None)):
                            "fail": {k: KINDS[(KINDS.index(v) + rot) % 3] for k, v in fp.items()}, "max_errors": me}
 
 
+def hub_fail_cfgs(Ws):
+    """One literal shared by m predecessors and k successors (as dependency or as argument); predecessors fail.
+    Exercises literal pruning on both sides of its m*n <= m+n test with a failure upstream of the hub."""
+    from .c01 import hub_cfgs
+
+    out = []
+    rot = 0
+    for c in hub_cfgs(Ws):
+        m = len(c["hub"][0])
+        for r in range(1, m + 1):
+            for fs in itertools.combinations(range(m), r):
+                for me in (0, None):
+                    rot += 1
+                    d = dict(c)
+                    d["fail"] = {str(i): KINDS[(i + rot) % 3] for i in fs}
+                    d["max_errors"] = me
+                    out.append(d)
+    return out
+
+
 def explorations(tier):
     scheds = ["cheap", "default", "random"]
     ex = []
@@ -54,6 +74,7 @@ def explorations(tier):
                    with_(engine_fail_cfgs([3], [2], ["default"], max_errors=(1, None), only_multi=True), bc=True), {"preempt": 1}))
         ex.append(("api n=3 x faults, W=1 every pop order", PLAN, api_fail_cfgs(3, [(1, "random")]), {"preempt": 0}))
         ex.append(("api n=3 x faults, W=2 default b<=1", PLAN, api_fail_cfgs(3, [(2, "default")], kinds=("p", "d"), max_errors=(0, 1)), {"preempt": 1}))
+        ex.append(("api literal hubs m x k with failing predecessors, W=1 every pop order / W=2 b<=1", PLAN, hub_fail_cfgs([1, 2]), {"preempt": 1, "random": 2}))
     else:
         ex.append(("engine G3 x faults, W=1 sync b<=2, all draws", ENGINE, engine_fail_cfgs([3], [1], scheds, variants=True), {"preempt": 2}))
         ex.append(("engine G3 x faults, W=2 sync b<=2", ENGINE, engine_fail_cfgs([3], [2], scheds), {"preempt": 2, "random": 1}))
@@ -63,6 +84,7 @@ def explorations(tier):
         ex.append(("engine G4-join x faults, W=2 sync b<=1", ENGINE, engine_fail_cfgs([4], [2], ["default"], max_errors=(0, None), only_join=True), {"preempt": 1}))
         ex.append(("api n=3 x faults, W=1 every pop order; W=2 b<=2", PLAN,
                    api_fail_cfgs(3, [(1, "random"), (2, "default")], max_errors=(0, 1, None)), {"preempt": 2}))
+        ex.append(("api literal hubs m x k with failing predecessors, W=1..3, b<=2", PLAN, hub_fail_cfgs([1, 2, 3]), {"preempt": 2, "random": 2}))
     return ex
 
 
